@@ -263,7 +263,7 @@ inline bool DecoderRS32<T_PointCloud>::internDecodeMsopPkt(const uint8_t* packet
 
     if (memcmp(this->const_param_.BLOCK_ID, block.id, 2) != 0)
     {
-      this->cb_excep_(Error(ERRCODE_WRONGMSOPID));
+      this->cb_excep_(Error(ERRCODE_WRONGMSOPBLKID));
       break;
     }
 
